@@ -19,6 +19,7 @@
 
 from yalafi import tex2txt
 from . import checks
+import json
 import subprocess
 import sys
 import time
@@ -209,6 +210,8 @@ def run_languagetool(plain, language, disable, enable,
     try:
         out = out.decode(encoding='utf-8')
         dic = json_decoder.decode(out)
+        # strings with unpaired surrogates cannot be written to the report
+        json.dumps(dic, ensure_ascii=False).encode('utf-8')
     except:
         json_fatal('JSON root element')
     matches = json_get(dic, 'matches', list)
